@@ -79,7 +79,7 @@ theorem catLoop_skip (m : Mode) (p : Prov) (hcs : 4 ≤ p.cs) (cat : Nat) (fuel 
     (hc : c.WF) (rest : List Nat) (hh : Holds p.rd (2 * wa) (encCat c ++ rest))
     (hne : ne + (if c.body.length / 2 = 0 then 1 else 0) < 32)
     (hcat : catOf c.type ≠ cat) (hend : catOf c.type ≠ Gen.Eeprom.CAT_END)
-    (hroom : 2 * wa + 4 + c.body.length < 65536) :
+    (hroom : 2 * wa + 4 + c.body.length < 131072) :
     catLoop m p cat (fuel + 1) wa ne calls
       = catLoop m p cat fuel (wa + 2 + c.body.length / 2) (ne + (if c.body.length / 2 = 0 then 1 else 0))
           (calls + 1) := by
@@ -105,7 +105,7 @@ theorem catLoop_skip (m : Mode) (p : Prov) (hcs : 4 ≤ p.cs) (cat : Nat) (fuel 
 theorem catLoop_found (m : Mode) (p : Prov) (hcs : 4 ≤ p.cs) (cat : Nat) (fuel wa ne calls : Nat) (c : Cat)
     (hc : c.WF) (rest : List Nat) (hh : Holds p.rd (2 * wa) (encCat c ++ rest))
     (hne : ne + (if c.body.length / 2 = 0 then 1 else 0) < 32)
-    (hcat : catOf c.type = cat) (hroom : 2 * wa + 4 + c.body.length < 65536) :
+    (hcat : catOf c.type = cat) (hroom : 2 * wa + 4 + c.body.length ≤ 131072) (hstart : 2 * wa + 4 < 131072) :
     catLoop m p cat (fuel + 1) wa ne calls
       = (.ok (some ⟨2 * wa + 4, 2 * wa + 4 + c.body.length⟩), calls + 1) := by
   obtain ⟨ht, hl⟩ := header_words p hcs wa c hc rest hh
@@ -120,12 +120,10 @@ theorem catLoop_found (m : Mode) (p : Prov) (hcs : 4 ≤ p.cs) (cat : Nat) (fuel
     rw [if_neg (by simp only [Gen.Eeprom.EMPTY_CATEGORY_LIMIT]; omega)]
     rw [if_pos hcat]
     unfold Range.new
-    rw [mul16_ok _ _ _ _ (by omega), mul16_ok _ _ _ _ (by omega)]
     simp only [bind_ret]
-    rw [add16_ok _ _ _ _ (by omega)]
-    simp only [bind_ret]
-    have e : (⟨(wa + 2) * 2, (wa + 2) * 2 + c.body.length / 2 * 2⟩ : Range)
+    have e : (⟨(wa + 2) * 2, min ((wa + 2) * 2 + c.body.length / 2 * 2) ADDRESS_SPACE_BYTES⟩ : Range)
         = ⟨2 * wa + 4, 2 * wa + 4 + c.body.length⟩ := by
+      unfold ADDRESS_SPACE_BYTES
       congr 1 <;> omega
     rw [e]; rfl
   unfold catLoop
@@ -133,7 +131,7 @@ theorem catLoop_found (m : Mode) (p : Prov) (hcs : 4 ≤ p.cs) (cat : Nat) (fuel
 
 /-- The iteration that reads the End marker. -/
 theorem catLoop_end (m : Mode) (p : Prov) (hcs : 4 ≤ p.cs) (cat : Nat) (fuel wa ne calls : Nat)
-    (hh : Holds p.rd (2 * wa) [0xff, 0xff]) (hcat : cat ≠ Gen.Eeprom.CAT_END) (hroom : 2 * wa + 4 < 65536) :
+    (hh : Holds p.rd (2 * wa) [0xff, 0xff]) (hcat : cat ≠ Gen.Eeprom.CAT_END) (hroom : 2 * wa + 4 < 131072) :
     (catLoop m p cat (fuel + 1) wa ne calls).1 = .ok none := by
   have g0 := hh.get 0 (by simp)
   have g1 := hh.get 1 (by simp)
@@ -174,7 +172,7 @@ theorem catLoop_walk (m : Mode) (p : Prov) (hcs : 4 ≤ p.cs) (cat : Nat) :
       (∀ c ∈ pre, c.WF ∧ catOf c.type ≠ cat ∧ catOf c.type ≠ Gen.Eeprom.CAT_END) →
       Holds p.rd (2 * wa) (encCats pre ++ rest) →
       ne + empties pre < 32 →
-      2 * wa + (encCats pre).length < 65536 →
+      2 * wa + (encCats pre).length < 131072 →
       catLoop m p cat (fuel + pre.length) wa ne calls
         = catLoop m p cat fuel (wa + (encCats pre).length / 2) (ne + empties pre) (calls + pre.length) := by
   intro pre
